@@ -40,6 +40,8 @@ static std::vector<Plan> splitThreads(const Plan& plan, int n)
             if (c.tag == "cfg")
             {
                 c.erase("locale");  // the global locale is process state: not changed while several threads run
+                c.erase("cmpfb");   // derived frames / calls depend on every value the code compares - also on benign process-wide
+                                     // counters a neighbour has touched: they would make a workload differ from itself run alone
                 if (plan.cfgGet("shareinput", 0))
                     c.set("shareinput", 1);
                 char buf[8];
